@@ -22,10 +22,22 @@ STRING_CLASSES = [
     ("non-bmp", "smile \U0001F600"), ("combining", "é"), ("rtl", "a‏b‮c"), ("semicolon", "a;DROP TABLE t"),
     ("sql-injection", "' OR '1'='1"), ("quote-comment", "';--"), ("backslash-quote-comment", "\\';--"),
     ("braces", "{[()]}"), ("like-wild", "50%_off"),
+    # strings whose whole content spells SQL: keywords, niladic functions, numbers, references, placeholders
+    ("kw-current-timestamp", "CURRENT_TIMESTAMP"), ("kw-current-date-lower", "current_date"), ("kw-localtime-padded", " LOCALTIME\n"),
+    ("kw-null", "NULL"), ("kw-null-lower", "null"), ("kw-true", "TRUE"), ("kw-false-lower", "false"), ("kw-default", "DEFAULT"),
+    ("call-now", "now()"), ("star", "*"), ("number", "1"), ("negative-number", "-1"), ("sum", "1+1"), ("exponent", "1e3"),
+    ("qualified-name", "t.id"), ("excluded-ref", "excluded.a"), ("hex-blob", "x'00'"), ("nan", "NaN"), ("qmark-alone", "?"),
+    ("percent-s-alone", "%s"), ("dollar-one-alone", "$1"), ("colon-name-alone", ":name"), ("kw-current-user", "CURRENT_USER"),
+    ("kw-localtimestamp", "LocalTimestamp"), ("kw-current-time", "CURRENT_TIME"),
 ]
+LOOKALIKES = [v for n, v in STRING_CLASSES if n.startswith(("kw-", "call-", "star", "number", "negative-", "sum", "exponent", "qualified-", "excluded-",
+                                                            "hex-", "nan", "qmark-alone", "percent-s-alone", "dollar-one-alone", "colon-name-alone"))]
 
 
 def random_string(rnd, maxlen=12):
+    if rnd.random() < 0.1:
+        v = rnd.choice(LOOKALIKES)
+        return rnd.choice([v, v.lower(), v.upper(), " " + v, v + " ", v + "\n"])
     n = rnd.randint(0, maxlen)
     out = []
     for _ in range(n):
